@@ -295,7 +295,9 @@ func (p *FSM) Update(updates []sm.Entry) ([]sm.Entry, error) {
 			return nil, err
 		}
 
-		if len(res.Responses) > 0 {
+		// A transaction always reports its result (the revision), even if the executed branch was empty.
+		_, isTxn := cmd.(commandTxn)
+		if len(res.Responses) > 0 || isTxn {
 			bts, err := res.MarshalVT()
 			if err != nil {
 				return nil, err
